@@ -150,6 +150,9 @@ void harness_leaf(void) {
     TWO_RUNS((secp256k1_fe_mul(&g0, &a.f1, &a.f2), secp256k1_fe_sqr(&g0, &g0)), (secp256k1_fe_mul(&g1, &b.f1, &b.f2), secp256k1_fe_sqr(&g1, &g1)));
 #elif LEAF == 12
     TWO_RUNS(secp256k1_scalar_mul(&r0, &a.s1, &a.s2), secp256k1_scalar_mul(&r1, &b.s1, &b.s2));
+#elif LEAF == 14   /* constant-time modular inversion (real modinv64 / modinv32: fixed number of divsteps) */
+    FE_OK(a.f1, 1); FE_OK(b.f1, 1);
+    TWO_RUNS((secp256k1_fe_inv(&g0, &a.f1), secp256k1_scalar_inverse(&r0, &a.s1)), (secp256k1_fe_inv(&g1, &b.f1), secp256k1_scalar_inverse(&r1, &b.s1)));
 #elif LEAF == 13
     TWO_RUNS((secp256k1_fe_set_b32_mod(&g0, a.b32), secp256k1_fe_get_b32(a.c32, (secp256k1_fe_normalize(&g0), &g0)), i0 = secp256k1_fe_is_odd(&g0)), (secp256k1_fe_set_b32_mod(&g1, b.b32), secp256k1_fe_get_b32(b.c32, (secp256k1_fe_normalize(&g1), &g1)), i1 = secp256k1_fe_is_odd(&g1)));
 #endif
@@ -168,6 +171,15 @@ void harness_ecmult_gen(void) {
     c0.ecmult_gen_ctx.scalar_offset = a.s2; c1.ecmult_gen_ctx.scalar_offset = b.s2; FE_OK(a.f1, 1); FE_OK(b.f1, 1); c0.ecmult_gen_ctx.proj_blind = a.f1; c1.ecmult_gen_ctx.proj_blind = b.f1;
     FE_OK(c0.ecmult_gen_ctx.ge_offset.x, 1); FE_OK(c0.ecmult_gen_ctx.ge_offset.y, 1); c0.ecmult_gen_ctx.ge_offset.infinity = 0; c1.ecmult_gen_ctx.ge_offset = c0.ecmult_gen_ctx.ge_offset;
     TWO_RUNS(secp256k1_ecmult_gen(&c0.ecmult_gen_ctx, &r0, &a.s1), secp256k1_ecmult_gen(&c1.ecmult_gen_ctx, &r1, &b.s1));
+}
+#endif
+
+/* ================= constant-time variable-base multiplication: real recoding, table build and table scans ================= */
+#ifdef CONSTMUL
+void harness_ecmult_const(void) {
+    sec_t a = nondet_sec(), b = nondet_sec(); pub_t p = nondet_pub(); secp256k1_gej r0, r1; secp256k1_ge pt;
+    FE_OK(p.f, 1); pt.x = p.f; pt.y = p.f; pt.infinity = 0;          /* the point is public, the scalar secret */
+    TWO_RUNS(secp256k1_ecmult_const(&r0, &pt, &a.s1), secp256k1_ecmult_const(&r1, &pt, &b.s1));
 }
 #endif
 
